@@ -14,7 +14,7 @@ From RU Require Import Base.Prelude Base.Utf8 Base.Utf8Facts Base.Outcome_c15 Mo
   Proofs.ListN Proofs.C02_Enc Proofs.C02_Parts Proofs.C02_Opaque Proofs.C02_Path Proofs.C02_PathL1 Proofs.C02_Reach
   Proofs.C02_AuthParts Proofs.C02_Auth Proofs.C02_AuthWf Proofs.C02_PathSp Proofs.C02_AuthSp Proofs.C02_AuthMain
   Proofs.C02_Hist Proofs.C02_SetQF Proofs.C02_Canon Proofs.C02_SetPort Proofs.C02_JoinTail Proofs.C02_ReachPartial
-  Proofs.C02_Form Proofs.C02_SetCred Proofs.C02_SetCredCanon Proofs.C08_AbsNonfile.
+  Proofs.C02_Form Proofs.C02_SetCred Proofs.C02_SetCredCanon Proofs.C02_QPort Proofs.C08_AbsNonfile.
 Open Scope N_scope.
 Open Scope list_scope.
 
@@ -60,7 +60,7 @@ Proof. intros H dbg hp hpo hd HOK u Hr. exact (H dbg hp hpo hd HOK u (Reachable2
 Definition canon_op (o : op) : bool :=
   match o with
   | OSetFragment _ | OSetQuery _ | OSetPort _ | OSetPassword _ | OSetUsername _
-  | OQUsername _ | OQPassword _ | OQSearch _ | OQHash _ => true   (* the four quirks setters that are wrappers of these *)
+  | OQUsername _ | OQPassword _ | OQPort _ | OQSearch _ | OQHash _ => true   (* quirks setters: four wrappers, and port *)
   | _ => false
   end.
 
@@ -125,6 +125,8 @@ Proof.
     + destruct (option_map_fst_some _ _ Ho) as [s0 Es]. unfold q_set_password in Es.
       apply (set_password_Canon dbg hp hpo hd u _ u' s0 IH) in Es; [exact Es | | exact Hb].
       destruct s; [exact I | exact Ha].
+    + destruct (option_map_fst_some _ _ Ho) as [s0 Es].
+      exact (q_set_port_Canon dbg hp hpo hd u s u' s0 IH Es Hb).
     + unfold q_set_search in Ho. apply (set_query_Canon dbg hp hpo hd HRT u _ u' IH) in Ho; [exact Ho | | exact Hb].
       destruct s as [|c r]; [exact I|]. assert (usv_list r) as Hr' by (apply usv_cons in Ha; tauto).
       destruct c as [|pp]; [exact Ha|]. do 7 (try (destruct pp as [pp|pp|]; try exact Ha)). exact Hr'.
